@@ -185,6 +185,15 @@ class Canon:
             if name.endswith(ITER) and len(S[2]) == 1 and not name.endswith(ROWS_ITER):
                 Xs = self.canon(S[2][0])
                 return ('at', Xs, pos), [('len', Xs)]
+        # a slice / array value iterated directly (`for c in A::symbols()`, `for x in &v`): the loop's iterator local is a plain slice
+        # iterator, so S itself is the collection (any adaptor in between would change that type)
+        if self.fn is not None and isinstance(L, int) and 0 <= L < len(self.fn.locals) and not (S[0] == 'call' and 'iter::' in S[1] and 'Iterator::' in S[1]):
+            ty = self.fn.local_ty(L)
+            # (the adaptors around it — Enumerate<..>, Zip<..> — were peeled structurally on the way here; the leaf must be a slice iterator)
+            if any(k in ty for k in ('core::slice::Iter<', 'core::slice::IterMut<', 'core::slice::iter::Iter<', 'core::slice::iter::IterMut<')) \
+                    and S[0] in ('v', 'p', 'fld', 'elem', 'call', 'at', 'idx'):
+                Xs = self.canon(S)
+                return ('at', Xs, pos), [('len', Xs)]
         return None
 
     def _extent_expr(self, ext):
